@@ -2,6 +2,7 @@ import QuillModel.Pattern.Compile
 import QuillModel.Pattern.Lines
 import QuillModel.Pattern.Meta
 import QuillModel.Pattern.Fuel
+import QuillModel.Pattern.Dup
 /-!
 # C12 — the line handed to a sink equals the pattern with every attribute substituted
 
@@ -195,6 +196,16 @@ example : formatPattern "% (message) %%(logger)%".toList (fun a => a.name) = .li
 /-- "The same attribute cannot be used twice": accepted by the constructor, every statement then throws -/
 theorem duplicate_attribute_throws (vals : Attr → Str) :
     formatPattern "%(message) %(logger) %(message)".toList vals = .formatError := rfl
+
+/-- in general: a pattern of well-formed items (no brace in literals, at most sixteen fields) in which some attribute
+    occurs twice is accepted, and then EVERY statement throws — the slot of the earlier occurrence is never filled -/
+theorem C12_duplicate_attribute_always_throws (p : List Item) (vals : Attr → Str) (hwf : ∀ it ∈ p, it.wf = true)
+    (hadj : noAdjLits p = true) (hnb : NoBrace p) (hlen : (attrsOf p).length ≤ 16) (hdup : ¬ (attrsOf p).Nodup) :
+    formatPattern (printPattern p) vals = .formatError :=
+  duplicate_attribute_always_throws p vals hwf hadj hnb hlen hdup
+
+example : (∀ it ∈ [Item.field .message none, .lit " ".toList, .field .message none], it.wf = true) ∧
+    ¬ (attrsOf [Item.field .message none, .lit " ".toList, .field .message none]).Nodup := by decide
 
 /-! ## Multi-line messages -/
 
